@@ -68,6 +68,7 @@ pub fn gen_case(prop: &str, seed: u64) -> Case {
             p.w_select = 22;
             p.w_order_query = 6;
             p.w_range_query = 6;
+            p.w_raw_query = 12;
             p.w_reopen = 2;
             p.invalid_pct = 8;
             p.pk_first_only = false;
@@ -183,7 +184,8 @@ pub fn gen_case(prop: &str, seed: u64) -> Case {
             p.w_select = 0;
             p.w_advance = 4;
             p.max_rows_per_insert = 30;
-            p.low_card_pct = 25;
+            p.low_card_pct = 15;
+            p.pk_pct = 70;
             if krng.chance(2, 3) {
                 knobs.rowset_size = *krng.pick(&[128usize, 256, 1024, 4096]);
             }
